@@ -28,6 +28,8 @@ pub mod solver;
 pub mod state;
 pub mod stream;
 pub mod user;
+#[cfg(terohuttunen_proto_vulcan_verif)]
+pub mod verif;
 
 use engine::Engine;
 use std::borrow::Borrow;
